@@ -512,6 +512,11 @@ class DnsRecordTxt(ParsableBase):
     def compose(self):
         composer = ComposerBinary()
 
-        composer.compose_string(self.value, 'ascii', 1)
+        value = self.value
+        while True:
+            composer.compose_string(value[:255], 'ascii', 1)
+            value = value[255:]
+            if not value:
+                break
 
         return composer.composed_bytes
